@@ -47,6 +47,13 @@ LIB = {
     # on that name (spec op entry carries 'reads': <variable name>); no extrinsic input of its own
     'rd':    {'eqs': None, 'state': ['q'], 'const': ['kq', 'gq'], 'in': None, 'out': 'q',
               'defaults': {'q': 0.0, 'kq': 1.0, 'gq': 0.5}, 'reads': True},
+    # readout with an edge input of its own: two input variables (the summed sibling variable and z_in)
+    'rd2':   {'eqs': None, 'state': ['q'], 'const': ['kq', 'gq'], 'in': 'z_in', 'out': 'q',
+              'defaults': {'q': 0.0, 'kq': 1.0, 'gq': 0.5}, 'reads': True},
+    # second EMITTER of a multi-operator node: an operator whose output variable carries the same name (x) as the node's first
+    # operator's; an operator that reads x then receives the SUM of both (PyRates sums same-named outputs)
+    'em':    {'eqs': ["x' = -ae*x + ce"], 'state': ['x'], 'const': ['ae', 'ce'], 'in': None, 'out': 'x',
+              'defaults': {'x': 0.0, 'ae': 1.0, 'ce': 0.5}},
     # deliberately malformed operators (F-badop: an API call that legitimately fails in the middle of a history)
     'bad_undecl': {'eqs': ["x' = -a*x + u + zz"], 'state': ['x'], 'const': ['a'], 'in': 'u', 'out': 'x',
                    'defaults': {'x': 0.5, 'a': 2.0}},
@@ -69,6 +76,8 @@ def op_eqs(o):
     """equations of a spec operator entry"""
     if o['lib'] == 'rd':
         return [f"q' = -kq*q + gq*{o['reads']}"]
+    if o['lib'] == 'rd2':
+        return [f"q' = -kq*q + gq*{o['reads']} + z_in"]
     return list(LIB[o['lib']]['eqs'])
 
 
@@ -102,6 +111,10 @@ def ref_rhs(lib, p, s, u, past=None):
         return {'x': -p['a'] * s['x'] + u}
     if lib == 'rd':
         return {'q': -p['kq'] * s['q'] + p['gq'] * u}        # u = value of the variable it reads (same node, first operator)
+    if lib == 'em':
+        return {'x': -p['ae'] * s['x'] + p['ce']}
+    if lib == 'rd2':
+        return {'q': -p['kq'] * s['q'] + u}                  # u = gq * (summed sibling variable) + edges into z_in
     if lib == 'cz':
         return {'z': (1j * p['om'] - p['dl']) * s['z'] + u}
     if lib == 'linl':
@@ -125,6 +138,10 @@ def recover_input(lib, p, s, r):
         return r['x'] + p['a'] * s['x']
     if lib == 'rd':
         return (r['q'] + p['kq'] * s['q']) / p['gq']
+    if lib == 'em':
+        return r['x'] + p['ae'] * s['x'] - p['ce']          # (takes no input: 0 for a faithful evaluation)
+    if lib == 'rd2':
+        return r['q'] + p['kq'] * s['q']
     if lib == 'cz':
         return r['z'] - (1j * p['om'] - p['dl']) * s['z']
     if lib == 'linl':
@@ -182,9 +199,12 @@ class RefNet:
                 L = LIB[op['lib']]
                 self.inst[(node, op['name'])] = {'lib': op['lib'], 'p': {k: cval(vals[k]) for k in L['const']},
                                                  's0': {k: cval(vals[k]) for k in L['state']}}
-                if op['lib'] == 'rd':
+                if op['lib'] in ('rd', 'rd2'):
                     first = spec['ops'][nt['ops'][0]]
                     self.inst[(node, op['name'])]['reads'] = f"{node}/{first['name']}/{op['reads']}"
+                    # further operators of the node that emit the same variable: the readout receives the sum
+                    self.inst[(node, op['name'])]['reads_more'] = [
+                        f"{node}/{spec['ops'][ok_]['name']}/x" for ok_ in nt['ops'][1:] if spec['ops'][ok_]['lib'] == 'em']
         self.state_names = [f'{n}/{o}/{v}' for (n, o), i in self.inst.items() for v in LIB[i['lib']]['state']]
 
     def clone_node(self, src, new):
@@ -194,8 +214,9 @@ class RefNet:
         for (n, o), i in list(self.inst.items()):
             if n == src:
                 self.inst[(new, o)] = _copy.deepcopy(i)
-                if 'reads' in i:       # a readout operator reads its OWN node's first operator
+                if 'reads' in i:       # a readout operator reads its OWN node's operators
                     self.inst[(new, o)]['reads'] = new + i['reads'][len(src):]
+                    self.inst[(new, o)]['reads_more'] = [new + r_[len(src):] for r_ in i.get('reads_more', [])]
         self.state_names = [f'{n}/{o}/{v}' for (n, o), i in self.inst.items() for v in LIB[i['lib']]['state']]
 
     def set_value(self, node, opname, var, val):
@@ -210,8 +231,12 @@ class RefNet:
 
     def undelayed_input(self, y, node, opname, skip_delayed=True):
         if self.inst[(node, opname)]['lib'] == 'rd':
-            return y[self.inst[(node, opname)]['reads']]      # what a readout operator receives: its sibling's variable
+            i_ = self.inst[(node, opname)]      # what a readout operator receives: the (summed) variable of its siblings
+            return y[i_['reads']] + sum(y[r_] for r_ in i_.get('reads_more', []))
         u = 0.0
+        if self.inst[(node, opname)]['lib'] == 'rd2':
+            i_ = self.inst[(node, opname)]
+            u = i_['p']['gq'] * (y[i_['reads']] + sum(y[r_] for r_ in i_.get('reads_more', [])))
         for s, t, a in self.edges:
             if t == f"{node}/{opname}/{LIB[self.inst[(node, opname)]['lib']]['in']}":
                 if skip_delayed and (a.get('delay') or a.get('spread')):
@@ -226,7 +251,7 @@ class RefNet:
         for (n, o), i in self.inst.items():
             if i['lib'] == 'rd':
                 out[f'{n}/{o}/q'] = ref_rhs('rd', i['p'], {'q': y[f'{n}/{o}/q']},
-                                            y[i['reads']] + (extra or {}).get((n, o), 0.0))['q']
+                                            self.undelayed_input(y, n, o) + (extra or {}).get((n, o), 0.0))['q']
                 continue
             u = self.undelayed_input(y, n, o) + (extra or {}).get((n, o), 0.0)
             if past is not None:
@@ -345,15 +370,27 @@ def gen_net(rng, n_nodes=None, libs=('lin', 'sat', 'osc', 'leak', 'integ', 'linl
         if readouts and not LIB[k].get('complex') and not LIB[k].get('dde') and rng.random() < readouts[0]:
             # MULTI-OPERATOR node: a readout operator behind the first one (with its own values, or - second number of
             # `readouts` - without any override: an empty per-operator entry next to a non-empty one)
-            rk = f'rd{i}{uniq}' if per_node_ops else f'rd_{k}{uniq}'
+            two = len(readouts) > 3 and rng.random() < readouts[3]     # readout with a second (edge) input
+            rlib = 'rd2' if two else 'rd'
+            rk = f'{rlib}{i}{uniq}' if per_node_ops else f'{rlib}_{k}{uniq}'
             rvar = {'kq': _grid(rng, 0.25, 3.0, 16), 'gq': _grid(rng, -2.0, 2.0, 16) or 0.5, 'q': pool.pop() / 64}
             nt_ = spec['nts'][f'nt{i}{uniq}']
             if per_node_ops:
-                spec['ops'][rk] = {'lib': 'rd', 'name': rk, 'reads': LIB[k]['out'], 'defaults': {**LIB['rd']['defaults'], **rvar}}
+                spec['ops'][rk] = {'lib': rlib, 'name': rk, 'reads': LIB[k]['out'], 'defaults': {**LIB['rd']['defaults'], **rvar}}
             else:
-                spec['ops'].setdefault(rk, {'lib': 'rd', 'name': rk, 'reads': LIB[k]['out'], 'defaults': dict(LIB['rd']['defaults'])})
+                spec['ops'].setdefault(rk, {'lib': rlib, 'name': rk, 'reads': LIB[k]['out'], 'defaults': dict(LIB['rd']['defaults'])})
                 if rng.random() >= readouts[1]:
                     nt_['var'][rk] = rvar
+            if len(readouts) > 2 and LIB[k]['out'] == 'x' and rng.random() < readouts[2]:
+                # a second emitter of x between the first operator and the readout
+                ek = f'em{i}{uniq}' if per_node_ops else f'em{uniq}'
+                evar = {'ae': _grid(rng, 0.25, 3.0, 16), 'ce': _grid(rng, -2.0, 2.0, 16) or 0.5, 'x': pool.pop() / 64}
+                if per_node_ops:
+                    spec['ops'][ek] = {'lib': 'em', 'name': ek, 'defaults': {**LIB['em']['defaults'], **evar}}
+                else:
+                    spec['ops'].setdefault(ek, {'lib': 'em', 'name': ek, 'defaults': dict(LIB['em']['defaults'])})
+                    nt_['var'][ek] = evar
+                nt_['ops'].append(ek)
             nt_['ops'].append(rk)
             readout_of[nm] = rk
     def mk_edges(level_names, prefix_of, m):
@@ -373,7 +410,11 @@ def gen_net(rng, n_nodes=None, libs=('lin', 'sat', 'osc', 'leak', 'integ', 'linl
             src = f'{s}/{sname}/{LIB[sk]["out"]}'
             if s.split('/')[-1] in readout_of and rng.random() < 0.5:
                 src = f"{s}/{readout_of[s.split('/')[-1]]}/q"          # the readout operator's variable as edge source
-            out.append([src, f'{t}/{tname}/{LIB[tk]["in"]}', a])
+            tgt = f'{t}/{tname}/{LIB[tk]["in"]}'
+            rt_ = readout_of.get(t.split('/')[-1])
+            if rt_ and spec['ops'][rt_]['lib'] == 'rd2' and rng.random() < 0.5:
+                tgt = f"{t}/{rt_}/z_in"                                     # the readout's own edge input
+            out.append([src, tgt, a])
         return out
     if per_node_ops:
         used = {o for nt in spec['nts'].values() for o in nt['ops']}
@@ -430,9 +471,9 @@ def _vardecl(lib, defaults, op=None):
         out[c] = float(defaults[c])
     if L.get('complex'):
         out['ic'] = 0.0 + 1.0j
-    if lib == 'rd':
+    if lib in ('rd', 'rd2'):
         out[op['reads']] = 'input(0.0)'
-    else:
+    if L['in']:
         out[L['in']] = 'input(0.0)'
     return out
 
